@@ -453,6 +453,10 @@ func runTraversalCase(c *tvCase, dir string, rep *Report) []tvViol {
 func runTraversalReplay(args []string) int {
 	in, out := args[0], args[1]
 	rep := newReport("traversal")
+	for _, v := range traversalADLCases() {
+		rep.violate("traversal/"+v[0], v[1], map[string]any{"family": "traversal-adl"})
+	}
+	rep.eval("traversal-adl", true)
 	jobs := make(chan []byte, 256)
 	var wg sync.WaitGroup
 	base := "/dev/shm"
